@@ -239,7 +239,7 @@ func init() {
 
 	// ------------------------------------------------------------ connectable / share over a cold source, single subscriber
 	opEntry("Share", MultiFeed|NoChain, ident, func(b *B) op { return ro.Share[int]() })
-	opEntry("ShareReplay(2)", MultiFeed|NoChain, ident, func(b *B) op { return ro.ShareReplay[int](2) }, "ShareReplay")
+	opEntry("ShareReplay(2)", MultiFeed|NoChain|KeepsSource, ident, func(b *B) op { return ro.ShareReplay[int](2) }, "ShareReplay")
 	opEntry("ShareWithConfig(behavior)", MultiFeed|NoChain, m1(func(vs []int, end rec.Kind) ([]string, Term) {
 		return append(ri([]int{-1}), ri(vs)...), fwd(end)
 	}), func(b *B) op {
